@@ -33,6 +33,7 @@ class Profile:
         self.p_event_param_guard = 0.05
         self.p_active_guard = 0.12     # guards that also read the configuration through active()
         self.active_in_actions = True  # actions may read the configuration through active()
+        self.use_tick = True           # actions may call tick() (a callable of the initial context moving the clock)
         self.shuffle_names = True
         self.events = None            # event alphabet of the transitions (default EVENTS)
         self.p_sibling_target = 0.0   # probability that a target is a sibling of the source (stays in its region)
@@ -95,8 +96,10 @@ class Gen:
                 parts.append("y = y + (1 if active('%s') else 0)" % self.rng.choice(NAMES[:12]))
             elif r < 0.9:
                 parts.append('z%d = time' % self.rng.randint(0, 1))
-            else:
+            elif self.p.use_tick:
                 parts.append('tick()')     # a callable of the initial context that moves the clock DURING the step
+            else:
+                parts.append('y = y + 2')
         return '\n'.join(parts)
 
     def cond(self, kind, with_old=True):
